@@ -11,6 +11,7 @@ with tempfile.TemporaryDirectory() as d:
     x = os.path.join(d, "j.xml")
     env = dict(os.environ)
     env.pop("WIKITEXTPROCESSOR_VERIF", None)
+    env["PYTHONPATH"] = os.path.join(repo, "src")
     subprocess.run(["/venv/bin/python", "-m", "pytest", "-ra", "-q", "-p", "no:cacheprovider", "--timeout=900", "--continue-on-collection-errors", "--junitxml=" + x], cwd=repo, env=env, stdout=subprocess.DEVNULL, stderr=subprocess.DEVNULL)
     passed = set()
     for tc in ET.parse(x).getroot().iter("testcase"):
